@@ -301,7 +301,7 @@ func joinFilter(a []any, sep func(string) string) any {
 	s := sep(" ")
 	for _, v := range a {
 		if v != nil {
-			ss = append(ss, fmt.Sprint(v))
+			ss = append(ss, fmt.Sprint(values.DeepToLiquid(v)))
 		}
 	}
 	return strings.Join(ss, s)
